@@ -53,14 +53,16 @@ def _big_frame():
     independent of the base depth.)"""
     global _BIG
     if _BIG is None:
+        import types
         n = 262144 + 256
-        lines = ["def _big(f):"]
-        for i in range(0, n, 1000):
-            lines.append("    " + "=".join(f"v{j}" for j in range(i, min(n, i + 1000))) + "=None")
-        lines.append("    return f()")
-        ns = {}
-        exec(compile("\n".join(lines) + "\n", "<pyvc-bigframe>", "exec"), ns)
-        _BIG = ns["_big"]
+
+        def _small(f):
+            return f()
+        c = _small.__code__
+        names = ("f",) + tuple(f"v{i}" for i in range(n))
+        # same code, but a frame with > 2^18 local slots (much cheaper than
+        # compiling a function that really assigns that many locals)
+        _BIG = types.FunctionType(c.replace(co_varnames=names, co_nlocals=len(names)), globals(), "_big")
     return _BIG
 
 
@@ -259,6 +261,7 @@ def run_property(args):
     per_contract = {}
     clause_status = {}
     bounded_contracts = []
+    clause_paths = {}
     for cid in cids:
         r = results.get(cid)
         if r is None:
@@ -299,6 +302,7 @@ def run_property(args):
                 if st != "refuted":
                     st = "unknown"
             clause_status[key] = st
+            clause_paths[key] = clause_paths.get(key, 0) + 1
             if len(samples) < 5 and ob.status == "discharged" and ob.time > 0:
                 samples.append(f"{key} on path {list(trace)}: unsat in {ob.time:.3f}s")
 
@@ -362,6 +366,8 @@ def run_property(args):
 
     rc = 0
     lines = []
+    engine_known = []
+    engine_known_all = []
     for kf_id in sorted({r["known"]["id"] for r in known_hits}):
         what = next(r["known"]["what"] for r in known_hits if r["known"]["id"] == kf_id)
         lines.append(f"KNOWN-FINDING: property={prop} {kf_id} {what}")
@@ -372,6 +378,8 @@ def run_property(args):
                 kf = k
         if kf:
             lines.append(f"KNOWN-FINDING: property={prop} {kf['id']} {kf['what']}")
+            engine_known.append(kf["id"])
+            engine_known_all.append(v.get("obligation"))
             continue
         path = os.path.join(REPLAY_DIR(), prop, _slug(v["obligation"]) + ".py")
         if v.get("replay_script"):
@@ -399,7 +407,10 @@ def run_property(args):
         rc = 3 if rc != 1 else 1
 
     wall = time.time() - t0
-    obligations = total + ex_total
+    # obligations that fail only because of a recorded known finding are
+    # reported under known_findings, not counted as (un)discharged obligations
+    n_known = len(known_hits) + len(engine_known_all)
+    obligations = total + ex_total - n_known
     dis = discharged + ex_dis
     ev = dict(
         property_id=prop, tier=tier, seed=seed, level="proof",
@@ -411,12 +422,14 @@ def run_property(args):
             by_backend=_backends(results, dis),
             solver_time_s=round(solver_time, 3),
             per_contract=per_contract,
+            clauses={k: dict(status=v, path_obligations=clause_paths.get(k, 0)) for k, v in sorted(clause_status.items())},
             undecided=[f"{c}: {l} (unknown)" for c, l, _, _ in unknown] + [f"{c}: unsupported: {u}" for c, u in unsupported]
                       + [f"{r['contract']}: {r['label']} refuted by the solver but {r['status']} on the real code" for r in artefacts]
                       + list(ex_undec),
             bounded=bounded,
             dropped_by_extraction=DROPPED,
-            known_findings=sorted({r["known"]["id"] for r in known_hits}),
+            known_findings=sorted({r["known"]["id"] for r in known_hits} | set(engine_known)),
+            known_finding_obligations=n_known,
             refuted=[f"{r['contract']} :: {r['label']} ({r['status']})" for r in violations],
             samples=samples or ["(no solver-checked obligation)"],
             cross_check=crosscheck_info, mutation_self_test=mutation_info,
